@@ -37,8 +37,13 @@ const c16HangSeconds = 30
 
 type c16Watch struct {
 	cur   atomic.Value // string
-	since atomic.Int64
+	since atomic.Int64 // serial number of the call in progress
+	// the watchdog's own view: which call it saw at its last tick, and for how many ticks in a row
+	lastSeen int64
+	ticks    int
 }
+
+var c16Serial atomic.Int64
 
 var (
 	c16WatchMu  sync.Mutex
@@ -56,7 +61,7 @@ func newC16Watch() *c16Watch {
 
 func (w *c16Watch) set(s string) {
 	w.cur.Store(s)
-	w.since.Store(time.Now().UnixNano())
+	w.since.Store(c16Serial.Add(1))
 }
 
 func c16Parse(w *c16Watch, s string) (res interface{}, err error, panicked interface{}) {
@@ -85,7 +90,15 @@ func runC16(r *ev.Run) {
 			all := append([]*c16Watch{}, c16Watchers...)
 			c16WatchMu.Unlock()
 			for _, ww := range all {
-				if s, _ := ww.cur.Load().(string); s != "" && time.Now().UnixNano()-ww.since.Load() > c16HangSeconds*1e9 {
+				// time is counted in ticks of this loop during which the SAME call was in progress: when the process or
+				// the machine is stopped for a while (or the clock steps) that is one late tick, not half a minute of parsing
+				s, _ := ww.cur.Load().(string)
+				if id := ww.since.Load(); s == "" || id != ww.lastSeen {
+					ww.lastSeen, ww.ticks = id, 0
+					continue
+				}
+				ww.ticks++
+				if ww.ticks*2 > c16HangSeconds {
 					r.Violation("C16:hang", fmt.Sprintf("sql.Parse(%q) does not return within %d s", s, c16HangSeconds), map[string]interface{}{"input": s})
 					os.Exit(r.Finish())
 				}
